@@ -279,7 +279,7 @@ def nan_normal_faces(levels):
 
 def run(ctx):
     quick = ctx.tier == "quick"
-    ngeo = int(os.environ.get("VERIF_C11_NGEO", 0)) or (70 if quick else 1500)
+    ngeo = int(os.environ.get("VERIF_C11_NGEO", 0)) or (400 if quick else 3000)
     npts = 40
     ctx.trusted += [
         "hand-written model coq/C11/Safety.v (+ C12 surface model) tied by differential testing against OrangeTrackView::find_safety (props/C11/run.py, harness/safety.cc)",
@@ -394,7 +394,7 @@ def run(ctx):
             break
     ctx.log("oracle done: %d model evaluations" % len(exprs))
     # ---- correspondence model vs implementation -------------------------------
-    nmax = 1200 if quick else 40000
+    nmax = 6000 if quick else 60000
     if len(exprs) > nmax:
         keep = sorted(ctx.rng.sample(range(len(exprs)), nmax))
         exprs = [exprs[i] for i in keep]; meta = [meta[i] for i in keep]
